@@ -32,6 +32,7 @@ import (
 	"time"
 
 	"github.com/golang/snappy"
+	"gitlab.com/aquachain/aquachain/aqua"
 	"gitlab.com/aquachain/aquachain/common/log"
 	"gitlab.com/aquachain/aquachain/crypto"
 	"gitlab.com/aquachain/aquachain/crypto/sha3"
@@ -991,6 +992,14 @@ func replay(c *vh.Ctx, m *vh.Model, file string) {
 	switch str("kind") {
 	case "decode", "handle":
 		checkDatagram(c, m, "replay/decode", bl("netcompat"), vh.UnHex(str("buf")))
+	case "child-case":
+		startChild(c, str("case")).finish(c)
+	case "queue-deliver":
+		pm, err := aqua.VerifNewPM(20)
+		if err != nil {
+			c.Fatal("cannot build protocol manager: %v", err)
+		}
+		queueDeliveries(c, m, pm)
 	case "frame-lifetime":
 		replayLifetime(c, m, rp)
 	case "discover-lifetime":
@@ -1017,11 +1026,15 @@ func replay(c *vh.Ctx, m *vh.Model, file string) {
 }
 
 func main() {
-	c := vh.Init("C17")
 	log.Root().SetHandler(log.DiscardHandler()) // the node's own logging is not an observable
+	if os.Getenv("VERIF_C17_CHILD") != "" {
+		childMain() // the sub-protocol consumers under an adversarial peer, in a process that may die
+		return
+	}
+	c := vh.Init("C17")
 	m := c.StartModel()
 	defer m.Close()
-	c.Res.Rule = "frame sessions between two real rlpxFrameRW (random secrets, 1-4 messages of sizes 0,1,15,16,17,31,32,33,100, 2^16 (thorough: 2^20, 2^24-2), with and without snappy): every single-byte flip, drop and truncation position of the short streams, sampled positions of the long ones; frames crafted by an authenticated peer (bad codes, size-field lies, over-limit snappy lengths); discovery datagrams: valid packets of the four types in both network modes, every truncation, every single-byte mutation, every truncation and mutation of the signed data re-signed by an attacker key, signed random bodies, unsigned random strings; aqua sub-protocol payloads for every message code on a mock peer; lifetime of delivered data: sessions of 2..8 messages read under consumption schedules (all reads first, reverse, lagging, partial, discarded, random) with a writer that reuses its payload buffer, and discovery packets decoded from one reused read buffer; RLPx auth/ack packets (real, truncated, mutated, size-prefix lies, correctly encrypted adversarial bodies, noise) through readHandshakeMsg and the full handshake functions, stalling peers over net.Pipe. A case is distinct and non-trivial when the decoder got past authentication (accepted, bad body or panic) or is a distinct session/limit probe."
+	c.Res.Rule = "frame sessions between two real rlpxFrameRW (random secrets, 1-4 messages of sizes 0,1,15,16,17,31,32,33,100, 2^16 (thorough: 2^20, 2^24-2), with and without snappy): every single-byte flip, drop and truncation position of the short streams, sampled positions of the long ones; frames crafted by an authenticated peer (bad codes, size-field lies, over-limit snappy lengths); discovery datagrams: valid packets of the four types in both network modes, every truncation, every single-byte mutation, every truncation and mutation of the signed data re-signed by an attacker key, signed random bodies, unsigned random strings; aqua sub-protocol payloads for every message code on a mock peer; lifetime of delivered data: sessions of 2..8 messages read under consumption schedules (all reads first, reverse, lagging, partial, discarded, random) with a writer that reuses its payload buffer, and discovery packets decoded from one reused read buffer; sub-protocol responses driven through to their consumers: a real downloader queue (reserve, then deliveries with more/fewer/zero/duplicated/reordered/mismatching/unsolicited/cancelled/expired entries), and in a child process a node whose peer answers a downloader sync and fetcher requests adversarially, sends unsolicited responses, inconsistent announcements and invalid transactions (a crash of the child = a crash of the node); RLPx auth/ack packets (real, truncated, mutated, size-prefix lies, correctly encrypted adversarial bodies, noise) through readHandshakeMsg and the full handshake functions, stalling peers over net.Pipe. A case is distinct and non-trivial when the decoder got past authentication (accepted, bad body or panic) or is a distinct session/limit probe."
 	// watchdog + memory ceiling for "never fatal"
 	debug.SetMemoryLimit(3 << 30)
 	go func() {
@@ -1055,6 +1068,7 @@ func main() {
 	c.Correspond("constants~Limits.v", "ProtocolMaxMsgSize softResponseLimit estHeaderRlpSize MaxBlockFetch MaxHeaderFetch MaxReceiptFetch MaxStateFetch baseProtocolMaxMsgSize maxUint24",
 		goConsts(), m.Ask("consts"))
 	t0 := time.Now()
+	child := startChild(c, "")
 	finishHandshake := handshake(c, m)
 	th := time.Now()
 	frames(c, m)
@@ -1066,6 +1080,7 @@ func main() {
 	subproto(c, m)
 	t3 := time.Now()
 	finishHandshake()
+	child.finish(c)
 	c.Note("wall: handshake %.1fs (+%.1fs waiting for time-out probes), frames %.1fs, discovery %.1fs, sub-protocol %.1fs", th.Sub(t0).Seconds(), time.Since(t3).Seconds(), t1.Sub(th).Seconds(), t2.Sub(t1).Seconds(), t3.Sub(t2).Seconds())
 	c.Finish()
 }
